@@ -51,7 +51,7 @@ type known struct {
 
 // overlayProps lists the properties whose harness is built with the
 // instrumentation overlay (scheduler yield points at synchronisation sites).
-var overlayProps = map[string]string{"C18": "sched", "C08": "work"}
+var overlayProps = map[string]string{"C18": "sched", "C08": "work:internal/filter", "C05": "work:."}
 
 // raceProps lists the properties with a race sub-check (package racecheck).
 var raceProps = map[string]bool{"C18": true}
@@ -214,14 +214,19 @@ func build(prop string, overlay string) string {
 	args := append([]string{"test", "-c", "-o", bin}, modfileArgs()...)
 	if overlay != "" {
 		ov := filepath.Join(dir, "overlay.json")
-		cmd := exec.Command(filepath.Join(root, "bin", "instr"), "-mode", overlay, "-repo", repoDir(), "-out", filepath.Join(dir, "overlay"), "-json", ov)
+		mode, dirs, _ := strings.Cut(overlay, ":")
+		iargs := []string{"-mode", mode, "-repo", repoDir(), "-out", filepath.Join(dir, "overlay"), "-json", ov}
+		if dirs != "" {
+			iargs = append(iargs, "-dirs", dirs)
+		}
+		cmd := exec.Command(filepath.Join(root, "bin", "instr"), iargs...)
 		cmd.Stderr = os.Stderr
 		cmd.Stdout = os.Stderr
 		if err := cmd.Run(); err != nil {
 			fatal2("instrumentation failed: %v", err)
 		}
 		args = append(args, "-overlay", ov)
-		if overlay == "sched" {
+		if mode == "sched" {
 			args = append(args, "-tags", "simsched")
 		}
 	}
